@@ -173,7 +173,16 @@ def install(M):
         lst = args[3]
         P.events.append(('pathspec', None if lst.var == 'None' else [s(x) for x in elems_of(lst.f[0])]))
         raise Done()
+    def status_of_files(P, c, args, dt):
+        files = args[2]
+        P.events.append(('status', [s(k) for k, _ in tgt(files).ent]))
+        return ok(VecV([k for k, _ in tgt(files).ent]))
+
+    def should_ignore(P, c, args, dt):
+        return FALSE
     c03.install(M)
+    M.env['commands::checkpoint::get_status_of_files'] = status_of_files
+    M.env['authorship::ignore::should_ignore_file_with_matcher'] = should_ignore
     M.env['git::repository::Repository::head'] = head
     M.env['authorship::ignore::effective_ignore_patterns'] = ignore_patterns
     M.env['authorship::ignore::build_ignore_matcher'] = ignore_matcher
@@ -207,6 +216,8 @@ def plan(tier, seed):
             tasks.append(('dispatch', {'preset': 'claude', 'outcome': 'result', 'kind': kind, 'wd': wd, 'cwd': cwd, 'nfiles': nf}))
     for p in PRESETS[1:]:
         tasks.append(('dispatch', {'preset': p, 'outcome': 'result', 'kind': 'AiAgent', 'wd': '/ws', 'cwd': '/ws', 'nfiles': 2}))
+    for n in (1, 2):
+        tasks.append(('tracked', {'ndirty': n}))
     for kind in ('Human', 'AiAgent'):
         for n in ((1, 2) if tier == 'quick' else (1, 2, 3)):
             tasks.append(('filter', {'kind': kind, 'npaths': n}))
@@ -375,8 +386,53 @@ def ob_filter(h, shape):
     h.sample = h.witness()
 
 
-OBLIGATIONS = {'dispatch': ob_dispatch, 'filter': ob_filter}
-MUST_COVER = ['K1-run-called', 'K1-exit0', 'K1-file-routed', 'K2-some-kept', 'K2-some-dropped', 'K2-all-outside']
+PWL = 'git::repo_storage::PersistedWorkingLog'
+
+
+def ob_tracked(h, shape):
+    """K2b: the set of files one checkpoint works on — reported paths plus the agent's dirty (unsaved) buffers —
+    through the real set_dirty_files and get_all_tracked_files: nothing outside the work tree is in it"""
+    P = h.P
+    M = P.M
+    W = '/ws/r1'
+    from mirsym.models.paths import mk_pathbuf
+    pb = lambda x: mk_pathbuf(list(x.encode()))
+    P.state['c20'] = {'cwd': W, 'preset_result': None}
+    P.state['fs'] = {k: (v if v == 'DIR' else pystring(v)) for k, v in LAYOUT_FS.items()}
+    P.state['fs']['/ws/r1/.git/ai/working_logs/head'] = 'DIR'
+    P.state['cwd'] = W
+    wl = mk_struct(M, PWL, dir=pb(W + '/.git/ai/working_logs/head'), base_commit=pystring('head'), repo_workdir=pb(W),
+                   canonical_workdir=pb(W), dirty_files=none(), initial_file=pb(W + '/.git/ai/working_logs/head/INITIAL'))
+    n = shape['ndirty']
+    dirty = [K2_PATHS[h.choice(len(K2_PATHS))] for _ in range(n)]
+    dirty = [d for d in dirty if d not in ('', '/', '..')]
+    h.inputs_struct = {'dirty': dirty, 'edited': ['a']}
+    dmap = MapV('hash', [[pystring(d), pystring('buffer text')] for d in dict.fromkeys(dirty)], 'map')
+    repo = mk_repo(M, W)
+    ev = VecV([pystring('a')])
+    try:
+        P.call_named(PWL + '::set_dirty_files', [Ref(Cell(wl)), some(dmap)])
+        r = P.call_named('commands::checkpoint::get_all_tracked_files',
+                         [Ref(Cell(repo)), pystr('head'), Ref(Cell(wl)), some(Ref(Cell(ev))), FALSE, Ref(Cell(Opaque('IgnoreMatcher', None)))])
+    except Panic as e:
+        h.panic('K2-tracked-no-panic', e.msg)
+        return
+    h.require(r.var == 'Ok', 'K2-tracked-ok', 'file discovery failed')
+    if r.var != 'Ok':
+        return
+    got = [bytes(concrete_bytes(as_bytes(x))).decode() for x in r.f[0].e]
+    outside = []
+    for g in got:
+        a = os_resolve(LAYOUT_FS, g if g.startswith('/') else W + '/' + g) or lexical(g if g.startswith('/') else W + '/' + g)
+        if not (a == W or a.startswith(W + '/')):
+            outside.append(g)
+    h.require(not outside, 'K2-tracked-files-stay-inside-the-work-tree', 'files %r outside %s are part of this repository\'s checkpoint (dirty buffers %r)' % (outside, W, dirty))
+    h.cover('K2-dirty-outside-dropped', any(not ((os_resolve(LAYOUT_FS, d if d.startswith('/') else W + '/' + d) or '').startswith(W)) for d in dirty))
+    h.sample = h.witness()
+
+
+OBLIGATIONS = {'dispatch': ob_dispatch, 'filter': ob_filter, 'tracked': ob_tracked}
+MUST_COVER = ['K1-run-called', 'K1-exit0', 'K1-file-routed', 'K2-some-kept', 'K2-some-dropped', 'K2-all-outside', 'K2-dirty-outside-dropped']
 
 
 # ---------------------------------------------------------------------------
@@ -431,7 +487,7 @@ def _recorded(root):
     return out
 
 
-def _native_run(native, root, env, cwd, kind, wd, files):
+def _native_run(native, root, env, cwd, kind, wd, files, dirty=None):
     import json as js
     import subprocess
     mp = lambda p: (root + p) if p.startswith('/') else p
@@ -440,17 +496,20 @@ def _native_run(native, root, env, cwd, kind, wd, files):
     else:
         payload = {'type': 'ai_agent', 'repo_working_dir': mp(wd), 'edited_filepaths': [mp(f) for f in files],
                    'transcript': {'messages': []}, 'agent_name': 't', 'model': 'm', 'conversation_id': 'i'}
+    if dirty:
+        payload['dirty_files'] = {mp(d): 'buffer text of the agent\n' for d in dirty}
     exe = native.__globals__['replay_binary']()
     inp = {'cwd': mp(cwd), 'args': ['agent-v1', '--hook-input', js.dumps(payload)]}
     p = subprocess.run([exe, 'c20_checkpoint'], input=js.dumps(inp).encode(), stdout=subprocess.PIPE, stderr=subprocess.PIPE, env=env, timeout=120)
     return p.returncode, p.stderr.decode('utf-8', 'replace')
 
 
-def _native_case(native, kind, cwd, wd, files):
+def _native_case(native, kind, cwd, wd, files, dirty=None):
     import subprocess
     root, env = _scratch()
     try:
-        rc, stderr = _native_run(native, root, env, cwd, kind, wd, files)
+        rc, stderr = _native_run(native, root, env, cwd, kind, wd, files, dirty)
+        stderr = stderr.replace(root, '')
         rec = _recorded(root)
         return {'rc': rc, 'recorded': rec, 'stderr': stderr[-1500:]}
     finally:
@@ -508,6 +567,22 @@ def _judge(kind, cwd, wd, files, r):
 def replay(v, native):
     inp = v['inputs']
     ob = v['obligation']
+    if 'dirty' in inp:
+        r = _native_case(native, 'AiAgent', '/ws/r1', '/ws/r1', inp['edited'], inp['dirty'])
+        if v['kind'] == 'panic':
+            return {'reproduced': r['rc'] == 101, 'native': r}
+        W = '/ws/r1'
+        outside = []
+        for f in r['recorded'][W]['files']:
+            a = os_resolve(LAYOUT_FS, f if f.startswith('/') else W + '/' + f) or lexical(f if f.startswith('/') else W + '/' + f)
+            # absolute names carry the scratch root
+            if f.startswith('/') and '/ws/' in f:
+                a = lexical(f[f.index('/ws/'):])
+            elif f.startswith('/') and '/else/' in f:
+                a = lexical(f[f.index('/else/'):])
+            if not (a == W or a.startswith(W + '/')):
+                outside.append(f)
+        return {'reproduced': bool(outside) if ob == 'K2-tracked-files-stay-inside-the-work-tree' else False, 'native': r, 'outside': outside}
     if ob.startswith('K2'):
         kind, cwd, wd, files = inp['kind'], '/ws/r1', '/ws/r1', inp['paths']
         if '' in files:
